@@ -277,7 +277,7 @@ func strRepeatFunc(_ *ctx.EvalCtx, receiver object.Object, args ...object.Object
 	}
 
 	val := receiver.(*object.Str).Value
-	repeated := strings.Repeat(val, int(firstArg.Value))
+	repeated := strings.Repeat(val, max(int(firstArg.Value), 0))
 
 	return &object.Str{Value: repeated}, nil
 }
